@@ -14,6 +14,7 @@ import (
 	"encoding/hex"
 	"flag"
 	"fmt"
+	"io"
 	"math/rand"
 	"net"
 	"os"
@@ -24,6 +25,7 @@ import (
 	"github.com/enbility/ship-go/api"
 	"github.com/enbility/ship-go/cert"
 	"github.com/enbility/ship-go/hub"
+	"github.com/enbility/ship-go/logging"
 	"github.com/enbility/ship-go/model"
 )
 
@@ -38,7 +40,68 @@ func (s *spineRec) HandleShipPayloadMessage(b []byte) {
 	s.mu.Unlock()
 }
 
+// a TCP path that can be cut: what the dialling hub connects to instead of the peer's port
+type thProxy struct {
+	ln     net.Listener
+	target int
+	mu     sync.Mutex
+	cut    bool
+	conns  []net.Conn
+}
+
+func newThProxy(target int) *thProxy {
+	ln, err := net.Listen("tcp", "127.0.0.1:0")
+	if err != nil {
+		panic(err)
+	}
+	p := &thProxy{ln: ln, target: target}
+	go func() {
+		for {
+			c, err := ln.Accept()
+			if err != nil {
+				return
+			}
+			p.mu.Lock()
+			cut := p.cut
+			p.mu.Unlock()
+			if cut {
+				c.Close()
+				continue
+			}
+			t, err := net.Dial("tcp", fmt.Sprintf("127.0.0.1:%d", p.target))
+			if err != nil {
+				c.Close()
+				continue
+			}
+			p.mu.Lock()
+			p.conns = append(p.conns, c, t)
+			p.mu.Unlock()
+			go func() { _, _ = io.Copy(t, c); t.Close(); c.Close() }()
+			go func() { _, _ = io.Copy(c, t); t.Close(); c.Close() }()
+		}
+	}()
+	return p
+}
+
+func (p *thProxy) port() int { return p.ln.Addr().(*net.TCPAddr).Port }
+
+func (p *thProxy) setCut(cut bool) {
+	p.mu.Lock()
+	p.cut = cut
+	cs := p.conns
+	if cut {
+		p.conns = nil
+	}
+	p.mu.Unlock()
+	if cut {
+		for _, c := range cs {
+			c.Close()
+		}
+	}
+}
+
 type thNode struct {
+	via     *thProxy // how the other hub reaches this one
 	name    string
 	cert    tls.Certificate
 	ski     string
@@ -73,7 +136,7 @@ func (n *thNode) start() {
 
 func (n *thNode) entry() *api.MdnsEntry {
 	return &api.MdnsEntry{Name: n.name, Ski: n.ski, Identifier: n.shipID, Path: "/ship/", Register: false,
-		Host: "localhost", Port: n.port, Addresses: []net.IP{net.ParseIP("127.0.0.1")}}
+		Host: "localhost", Port: n.via.port(), Addresses: []net.IP{net.ParseIP("127.0.0.1")}}
 }
 
 func newThNode(name string, seed int64) *thNode {
@@ -89,7 +152,8 @@ func newThNode(name string, seed int64) *thNode {
 	if err != nil {
 		panic(err)
 	}
-	return &thNode{name: name, cert: c, ski: ski, shipID: "ShipID-" + name, port: freePort()}
+	port := freePort()
+	return &thNode{name: name, cert: c, ski: ski, shipID: "ShipID-" + name, port: port, via: newThProxy(port)}
 }
 
 type thFacts struct {
@@ -101,6 +165,7 @@ type thFacts struct {
 	lastPair   string
 	detail     string
 	shipIDSeen string
+	connErr    string
 }
 
 func (n *thNode) facts(other *thNode) thFacts {
@@ -108,8 +173,11 @@ func (n *thNode) facts(other *thNode) thFacts {
 	svc := n.hub.ServiceForSKI(other.ski)
 	f.trusted = svc.Trusted()
 	if c := n.hub.VerifConnectionFor(other.ski); c != nil {
-		st, _ := c.ShipHandshakeState()
+		st, err := c.ShipHandshakeState()
 		f.connState = int(st)
+		if err != nil {
+			f.connErr = err.Error()
+		}
 	}
 	d := n.hub.PairingDetailForSki(other.ski)
 	f.detail = fmt.Sprint(uint(d.State()))
@@ -134,7 +202,8 @@ func (n *thNode) facts(other *thNode) thFacts {
 }
 
 func (f thFacts) String() string {
-	return fmt.Sprintf("t=%s,c=%d,life=%s,setups=%d,discs=%d,pair=%s,detail=%s,id=%s", b01(f.trusted), f.connState, f.lastLife, f.setups, f.discs, f.lastPair, f.detail, hex.EncodeToString([]byte(f.shipIDSeen)))
+	return fmt.Sprintf("t=%s,c=%d,life=%s,setups=%d,discs=%d,pair=%s,detail=%s,id=%s", b01(f.trusted), f.connState, f.lastLife, f.setups, f.discs, f.lastPair, f.detail, hex.EncodeToString([]byte(f.shipIDSeen))) +
+		map[bool]string{true: ",err=" + strings.ReplaceAll(f.connErr, " ", "_"), false: ""}[f.connErr != ""]
 }
 
 type thResult struct {
@@ -150,6 +219,10 @@ func runTwoHubs(id int, seed int64, nops int) *thResult {
 	a.start()
 	b.start()
 	defer func() {
+		a.via.ln.Close()
+		b.via.ln.Close()
+		a.via.setCut(true)
+		b.via.setCut(true)
 		if a.running {
 			a.hub.Shutdown()
 		}
@@ -170,7 +243,13 @@ func runTwoHubs(id int, seed int64, nops int) *thResult {
 	vis := map[string]bool{}      // X sees the other via mDNS
 	pinned := map[string]string{} // stored SHIP id X holds for the other ("" none)
 	cancelled := map[string]bool{}
-	op := func(s string) { res.ops = append(res.ops, s) }
+	cutNow := map[string]bool{}
+	op := func(s string) {
+		res.ops = append(res.ops, s)
+		if thDebug != nil {
+			thDebug.out("OP", s, "A="+a.ski[:6], "B="+b.ski[:6])
+		}
+	}
 	// a stored SHIP id (from an earlier pairing) is set before anything connects
 	for _, n := range []*thNode{a, b} {
 		switch rnd.Intn(5) {
@@ -243,6 +322,15 @@ func runTwoHubs(id int, seed int64, nops int) *thResult {
 				n.mdns.publish(o.entry())
 			}
 			op("restart" + n.name)
+		case k < 90:
+			// the network path towards this hub fails: existing connections die, new dials are refused
+			n.via.setCut(true)
+			cutNow[n.name] = true
+			op("cut" + n.name)
+		case k < 93:
+			n.via.setCut(false)
+			cutNow[n.name] = false
+			op("heal" + n.name)
 		default:
 			d := time.Duration(rnd.Intn(900)) * time.Millisecond
 			time.Sleep(d)
@@ -255,6 +343,16 @@ func runTwoHubs(id int, seed int64, nops int) *thResult {
 	// half of the scenarios end with both hubs (re-)registering and seeing each other, in random order:
 	// whatever happened before, the pair has to converge
 	if rnd.Intn(2) == 0 {
+		outage := rnd.Intn(3) == 0
+		if outage {
+			// the network between the hubs is down while they register and see each other: every dial fails
+			// until it comes back, after which nothing else prods the hubs
+			for _, n := range []*thNode{a, b} {
+				n.via.setCut(true)
+				cutNow[n.name] = true
+				op("cut" + n.name)
+			}
+		}
 		final := []string{"regA", "regB", "visA", "visB"}
 		rnd.Shuffle(len(final), func(i, j int) { final[i], final[j] = final[j], final[i] })
 		for _, f := range final {
@@ -274,6 +372,19 @@ func runTwoHubs(id int, seed int64, nops int) *thResult {
 			if rnd.Intn(2) == 0 {
 				time.Sleep(time.Duration(rnd.Intn(120)) * time.Millisecond)
 			}
+		}
+	}
+	if cutNow["A"] || cutNow["B"] {
+		d := time.Duration(800+rnd.Intn(1500)) * time.Millisecond
+		time.Sleep(d)
+		op(fmt.Sprintf("wait%d", d.Milliseconds()))
+	}
+	// the network is whole again before the quiet period
+	for _, n := range []*thNode{a, b} {
+		if cutNow[n.name] {
+			n.via.setCut(false)
+			cutNow[n.name] = false
+			op("heal" + n.name)
 		}
 	}
 	// quiet period: wait until both hubs show the same facts for 2 s (at most 14 s)
@@ -393,6 +504,28 @@ func runTwoHubs(id int, seed int64, nops int) *thResult {
 	return res
 }
 
+// debug logger: everything the library logs, with a timestamp (only with -debug, single scenario)
+type thLogger struct {
+	mu sync.Mutex
+	t0 time.Time
+}
+
+func (l *thLogger) out(lvl string, args ...interface{}) {
+	l.mu.Lock()
+	fmt.Fprintf(os.Stderr, "%7.3f %s %s\n", time.Since(l.t0).Seconds(), lvl, strings.TrimSpace(fmt.Sprintln(args...)))
+	l.mu.Unlock()
+}
+func (l *thLogger) Trace(args ...interface{})                 { l.out("T", args...) }
+func (l *thLogger) Tracef(f string, args ...interface{})      { l.out("T", fmt.Sprintf(f, args...)) }
+func (l *thLogger) Debug(args ...interface{})                 { l.out("D", args...) }
+func (l *thLogger) Debugf(f string, args ...interface{})      { l.out("D", fmt.Sprintf(f, args...)) }
+func (l *thLogger) Info(args ...interface{})                  { l.out("I", args...) }
+func (l *thLogger) Infof(f string, args ...interface{})       { l.out("I", fmt.Sprintf(f, args...)) }
+func (l *thLogger) Error(args ...interface{})                 { l.out("E", args...) }
+func (l *thLogger) Errorf(f string, args ...interface{})      { l.out("E", fmt.Sprintf(f, args...)) }
+
+var thDebug *thLogger
+
 func twohubsMain(args []string) int {
 	fs := flag.NewFlagSet("twohubs", flag.ExitOnError)
 	seed := fs.Int64("seed", 1, "PRNG seed")
@@ -401,7 +534,12 @@ func twohubsMain(args []string) int {
 	workers := fs.Int("workers", 20, "parallel scenarios")
 	only := fs.Int("only", -1, "run only this scenario")
 	out := fs.String("out", "twohubs.txt", "result lines")
+	debug := fs.Bool("debug", false, "print the library's log and the operations with timestamps to stderr")
 	_ = fs.Parse(args)
+	if *debug {
+		thDebug = &thLogger{t0: time.Now()}
+		logging.SetLogging(thDebug)
+	}
 	hub.VerifSetDelayRanges([][2]int{{0, 1}, {0, 1}, {0, 1}})
 	res := make([]*thResult, *n)
 	var wg sync.WaitGroup
